@@ -1,7 +1,7 @@
 (* C32 — property theorems only.  Each is closed by `exact <lemma>` and followed by Print Assumptions.
    (Refutations / examples are closed by vm_compute on a concrete witness.) *)
 From Coq Require Import List ZArith NArith Arith Bool.
-From Verif.C32 Require Import Model Spec Proofs Walk Conserve.
+From Verif.C32 Require Import Model Spec Proofs Walk Conserve Dia.
 Import ListNotations.
 Open Scope Z_scope.
 
@@ -115,25 +115,57 @@ Theorem c32_query_sums_statistics : forall n interval now p k fa ops gte lt res,
 Proof. exact statistics_all_histories. Qed.
 Print Assumptions c32_query_sums_statistics.
 
-(* PARTIAL emit_complete: in every reachable state, the key set gathered for a window W x of the emission walk
-   (maybeBuildFlowCollection's union of the buckets' Flows sets) is EXACTLY the set of keys of the accepted flows whose
-   start time lies in the window's interval [c_start, c_end): no accepted flow's key in an emitted window is left out
-   of the collection's candidates, and nothing foreign gets in (invariant Conserve.kinv: a key is in a slot's Flows set
-   iff the log holds a flow of that key starting in the slot's interval).
-   MISSING for the full c32_emit_complete and for c32_query_sums of List (both read the counts from DiachronicFlow):
-   the window invariant `dinv r log`, for every key k with ws = Windows of k in r_dia (or [] if absent):
-     (1) NoDup (map fst (r_dia r));  (2) ws is strictly sorted by w_start;
-     (3) every w in ws has, for some retained slot j, w_start = b_start (bk r j), w_end = b_end (bk r j) and
-         Some (w_cnt w) = sem (kin r k j) log   (so no empty window);
-     (4) for every retained slot j with existsb (kin r k j) log = true some w in ws has w_start = b_start (bk r j);
-   preserved by win_add (insert/add at the found position, needs (2)), by roll_key/win_roll on Rollover (the only
-   window with w_end <= new boh is the head of ws, needs (2),(3) and kinv to see that untouched keys have no expired
-   window) and trivially by emission; from it Aggregate(st, en) = sum of the windows wholly inside [st, en] = (slots
-   being disjoint) the sum of the logged flows of k in those buckets, provided 0 < boh (0 means "unbounded" in
-   GetWindows/Within).  The correspondence run checks exactly these two clauses on every case through Spec.ok_list and
-   Spec.ok_collection (on the implementation's and the model's outputs); c32_model_meets_spec for them is therefore
-   also open (it additionally needs: two key-sorted duplicate-free lists with the same lookup are equal). *)
-Theorem c32_emit_complete_keys_partial : forall n interval now p k fa ops x key,
+(* The diachronic-flow invariant (Dia.dinv r log), for every key k with ws = its Windows in r_dia ([] if absent):
+     NoDup (map fst (r_dia r));  ws strictly sorted by w_start;  every w in ws has the start and end of a retained
+     slot and Some (w_cnt w) = sem (flows of k starting inside w) log (so no empty window);  every retained slot holding
+     a logged flow of k has a window with that start.
+   It holds, together with ring consistency, the pushed-flag invariant (Walk.pinv), the statistics invariant
+   (Conserve.sinv) and the key-set invariant (Conserve.kinv), in EVERY state reachable by any interleaving of
+   ingest / rollover (with or without sink) / sink attach / List / Statistics (Dia.ginv; win_add and win_roll/roll_key
+   are the two non-trivial preservation proofs, the latter uses kinv to see that keys not in the expired bucket have no
+   expired window). *)
+Theorem c32_invariant : forall n interval now p k fa ops,
+  (1 <= k)%nat -> (p + k + 2 <= n)%nat -> 0 < interval ->
+  let r0 := new_ring n interval now p k true fa in
+  exists em, ginv (run_state r0 ops) em (run_log r0 [] ops).
+Proof. exact reach_ginv. Qed.
+Print Assumptions c32_invariant.
+
+(* List half of c32_query_sums.  Rounding rule, exactly (Dia.lsel): a retained bucket [s, e) counts iff
+   (gte = 0 \/ gte <= s) /\ (lt = 0 \/ e <= lt) - it lies wholly inside the range, 0 = unbounded; a bucket-aligned
+   range is therefore answered exactly.  List(gte, lt) has one entry for key k iff some accepted flow of k starts in a
+   retained bucket that counts, and the entry's counts are the sum of exactly those accepted flows. *)
+Theorem c32_query_sums_list : forall n interval now p k ops gte lt,
+  (1 <= k)%nat -> (p + k + 2 <= n)%nat -> 0 < interval ->
+  let r0 := new_ring n interval now p k true true in
+  let r := run_state r0 ops in
+  let log := run_log r0 [] ops in
+  (forall a, In a (list_flows r gte lt) ->
+     a_cnt a = sumf (lsel r gte lt (a_key a)) log /\ existsb (lsel r gte lt (a_key a)) log = true)
+  /\ (forall key, existsb (lsel r gte lt key) log = true -> exists a, In a (list_flows r gte lt) /\ a_key a = key).
+Proof. exact list_all_histories. Qed.
+Print Assumptions c32_query_sums_list.
+
+(* c32_emit_complete: in every reachable state (ring created with its whole history after the epoch, so that no bucket
+   boundary is the "unbounded" value 0), the collection built for any window W x of the emission walk - and by
+   c32_emit_shape every collection handed to the sink IS such a W x of the state at emission time - holds exactly one
+   flow per key that has an accepted flow starting in [c_start, c_end), with counts = the sum of exactly those accepted
+   flows: no accepted flow in an emitted window is left out, none is counted twice, nothing foreign is added. *)
+Theorem c32_emit_complete : forall n interval now p k ops x,
+  (1 <= k)%nat -> (p + k + 2 <= n)%nat -> 0 < interval -> Z.of_nat n * interval < now + 2 * interval ->
+  let r0 := new_ring n interval now p k true true in
+  let r := run_state r0 ops in
+  let log := run_log r0 [] ops in
+  (x + r_agg r < nb r)%nat ->
+  (forall a, In a (c_flows (W r x)) ->
+     a_cnt a = sumf (csel (W r x) (a_key a)) log /\ existsb (csel (W r x) (a_key a)) log = true)
+  /\ (forall key, existsb (csel (W r x) key) log = true -> exists a, In a (c_flows (W r x)) /\ a_key a = key).
+Proof. exact window_flows_all_histories. Qed.
+Print Assumptions c32_emit_complete.
+
+(* the gathering step alone (used by c32_emit_complete): the key set collected for W x is exactly the set of keys of
+   the accepted flows starting inside the window *)
+Theorem c32_emit_complete_keys : forall n interval now p k fa ops x key,
   (1 <= k)%nat -> (p + k + 2 <= n)%nat -> 0 < interval ->
   let r0 := new_ring n interval now p k true fa in
   let r := run_state r0 ops in
@@ -142,7 +174,7 @@ Theorem c32_emit_complete_keys_partial : forall n interval now p k fa ops x key,
   (In key (fold_left (fun acc i => set_union acc (b_keys (bk r i))) (c_buckets (W r x)) [])
    <-> existsb (fun f => N.eqb (f_key f) key && ((c_start (W r x) <=? f_start f) && (f_start f <? c_end (W r x)))) log = true).
 Proof. exact window_keys_all_histories. Qed.
-Print Assumptions c32_emit_complete_keys_partial.
+Print Assumptions c32_emit_complete_keys.
 
 (* What an emission is, exactly (used by the two theorems above): it terminates; the walk visits the windows W x for
    x = pushAfter+1, pushAfter+1+k, ... while the window's start slot is unpushed and the window stays short of the
